@@ -48,8 +48,18 @@ class LitEvent(LitBase):
         tag = lazy.ADDED if self.which == "add" else lazy.DISCARDED
         ecls = c0.eng.schema.class_id("_EventType")
         ev = VPair(VEnum(z3.IntVal(ecls), z3.IntVal(tag)), VPair(iv, VNone))
+        b = fresh("b", SetSort)
+        body = lazy.Denote(lazy.events(c1, L), b) == z3.If(
+            is_VNone(iv), lazy.Denote(lazy.events(c0, L), b),
+            z3.Store(lazy.Denote(lazy.events(c0, L), b), iv, z3.BoolVal(self.which == "add")))
+        try:
+            dstep = z3.ForAll([b], body, patterns=[lazy.Denote(lazy.events(c1, L), b)])
+        except z3.Z3Exception:      # explicit post-state term contains an if-then-else: not a legal trigger
+            dstep = z3.ForAll([b], body)
         return {"queued": lazy.events(c1, L) == z3.If(is_VNone(iv), lazy.events(c0, L),
-                                                       z3.Concat(lazy.events(c0, L), z3.Unit(ev)))}
+                                                       z3.Concat(lazy.events(c0, L), z3.Unit(ev))),
+                # consequence of the definition of Denote, stated here so that callers need not unfold it
+                "denote_step": dstep}
 
 
 class LitGet(LitBase):
